@@ -254,6 +254,7 @@ def heat_capacity(r, phi, q, kT):
         <eV/eV>
         Constant volume heat capacity
     """
+    r = np.ascontiguousarray(r)  # numba's trapezoid rule rejects non-contiguous sample points
     pot = q*(phi - phi[0])
     a = _trapz(pot**2 * np.exp(-pot/kT) * r, r)
     b = _trapz(pot * np.exp(-pot/kT) * r, r)
@@ -439,6 +440,7 @@ def boltzmann_radial_potential_linear_density(r, rho_0, nl, kT, q, first_guess=N
     .. [PICNPSb] "Nonlinear Poisson Solver"
            https://www.particleincell.com/2012/nonlinear-poisson-solver/
     """
+    r = np.ascontiguousarray(r)  # numba's trapezoid rule rejects non-contiguous sample points
     # Solves the nonlinear radial poisson equation for a dynamic charge distribution following
     # the Boltzmann law
     # A * phi = b0 + bx (where b0 and bx are the static and dynamic terms)
@@ -550,6 +552,7 @@ def boltzmann_radial_potential_linear_density_ebeam(
     .. [PICNPS] "Nonlinear Poisson Solver"
            https://www.particleincell.com/2012/nonlinear-poisson-solver/
     """
+    r = np.ascontiguousarray(r)  # numba's trapezoid rule rejects non-contiguous sample points
     # Solves the nonlinear radial poisson equation for a dynamic charge distribution following
     # the Boltzmann law
     # A * phi = b0 + bx (where b0 and bx are the static and dynamic terms)
@@ -665,6 +668,7 @@ def boltzmann_radial_potential_linear_density_ebeam_sor(
         Radial shape factor of the particle distributions.
 
     """
+    r = np.ascontiguousarray(r)  # numba's trapezoid rule rejects non-contiguous sample points
     # Solves the nonlinear radial poisson equation for a dynamic charge distribution following
     # the Boltzmann law
     # A * phi = b0 + bx (where b0 and bx are the static and dynamic terms)
